@@ -664,6 +664,126 @@ def run_fault(case, idx):
     return {"base": base, "runs": runs}
 
 
+# ------------------------------------------------------------------ part: sfault (round 8)
+# Faults of the OUTPUT STREAM: an animated draw() into a stream that stops accepting data at
+# its k-th write()/flush() call (every k of the fault-free run, those of the clean-up included).
+
+
+class BreakingStream(io.TextIOBase):
+    """A text stream whose write()/flush() calls succeed `good` times and raise for ever after
+    (a closed pipe, a vanished pty, a closed file); good=None never breaks.  Every call is
+    counted, whether it succeeds or not."""
+
+    def __init__(self, good, exc, tty):
+        self.good, self.exc, self.tty = good, exc, tty
+        self.calls = 0
+        self.failed = 0
+        self.chars = 0
+
+    def _gate(self):
+        i = self.calls
+        self.calls += 1
+        if self.good is not None and i >= self.good:
+            self.failed += 1
+            if self.exc == "broken_pipe":
+                raise BrokenPipeError(32, "Broken pipe")
+            if self.exc == "oserror":
+                raise OSError(5, "Input/output error")
+            raise ValueError("I/O operation on closed file.")
+
+    def isatty(self):
+        return self.tty
+
+    def writable(self):
+        return True
+
+    def write(self, s):
+        self._gate()
+        self.chars += len(s)
+        return len(s)
+
+    def flush(self):
+        self._gate()
+
+
+def one_sfault_run(case, idx, k):
+    cls = setup_style(case["style"], case.get("term"))
+    path = source_path(case["src"], idx)
+    gc.collect()
+    fd0 = fd_count()
+    image, keep = construct(cls, case["source"], path, case.get("size"))
+    n = image.n_frames
+    if case.get("pos0"):
+        image.seek(case["pos0"] % n)
+    size0, tell0 = image.size, image.tell()
+    fd1 = fd_count() - own_fd(keep)
+    stream = BreakingStream(k, case.get("exc", "broken_pipe"), bool(case.get("tty")))
+    raised = ""
+    opened, closed = [], set()
+    real_close = Image.Image.close
+
+    def opener(*a, **kw):
+        im = REAL_OPEN(*a, **kw)
+        opened.append(im)
+        return im
+
+    def close(self_):
+        closed.add(id(self_))
+        return real_close(self_)
+
+    Image.open = common.Image.open = opener
+    Image.Image.close = close
+    sys.stdout = stream
+    try:
+        try:
+            image.draw(repeat=case.get("repeat", 1), cached=case.get("cached", False), **case.get("style_args", {}))
+        except BaseException as e:  # noqa: BLE001
+            raised = type(e).__name__
+            del e
+    finally:
+        sys.stdout = REAL_STDOUT
+        Image.open = common.Image.open = REAL_OPEN
+        Image.Image.close = real_close
+    out = {"k": -1 if k is None else k, "calls": stream.calls, "failed": stream.failed, "raised": raised,
+           "tell0": tell0, "tell": image.tell(), "nframes": n,
+           "unclosed": sum(1 for im in opened if id(im) not in closed),
+           # descriptors held by library-opened images, every one of them still referenced
+           "fd_after": fd_count() - own_fd(keep) - fd1}
+    opened.clear()
+    gc.collect()
+    out["size_kept"] = image.size == size0
+    alive = True
+    if keep is not None:
+        try:
+            keep.seek(0)
+            keep.load()
+            keep.getpixel((0, 0))
+        except Exception:
+            alive = False
+    out["pil_alive"] = alive
+    image.close()
+    del image
+    if keep is not None:
+        keep.close()
+    keep = None
+    gc.collect()
+    out["fd_end"] = fd_count() - fd0
+    return out
+
+
+def run_sfault(case, idx):
+    tests.set_cell_size(tuple(case.get("cell", (10, 20))))
+    one_sfault_run(case, idx, None)  # warm up
+    base = one_sfault_run(case, idx, None)
+    total = base["calls"]
+    ks = case.get("ks")
+    if ks is None:
+        ks = list(range(total))
+    else:  # positions given from the start (>= 0) or from the END of the run (< 0: the clean-up)
+        ks = sorted({x if x >= 0 else total + x for x in ks if -total <= x < total})
+    return {"base": base, "runs": [one_sfault_run(case, idx, k) for k in ks]}
+
+
 # ------------------------------------------------------------------ part: url
 
 
@@ -777,7 +897,7 @@ def main():
     try:
         for i, c in enumerate(cases):
             try:
-                out.append({"iter": run_iter, "reent": run_iter, "fault": run_fault, "url": run_url}[c["part"]](c, i))
+                out.append({"iter": run_iter, "reent": run_iter, "fault": run_fault, "sfault": run_sfault, "url": run_url}[c["part"]](c, i))
             except Exception:  # noqa: BLE001
                 import traceback
                 sys.stdout = REAL_STDOUT
